@@ -61,6 +61,7 @@ def run(ctx):
         return
     quick = ctx.tier == "quick"
     rng = ctx.rng
+    ctx.classifiers["shared_allof_private_parent"] = lambda case: isinstance(case, dict) and case.get("cls") == "shared-allof-private-parent"
     ctx.classifiers["shared_document_cursor"] = lambda case: isinstance(case, dict) and case.get("op", [""])[0] == "validateshared"
     ctx.extra["rule"] = ("histories of up to 12 public operations (Check, Len, Example, GetAST, UsedUserTypes, Validate with a fresh or a shared Document; Document Check/Len; Enum Check/Len/Values; "
                          "Regex Check/Len/Example) over a pool of 1-4 schemas (with rules, type graphs, two defective added types), documents (valid, truncated, empty), an enum rule and a regex "
@@ -75,6 +76,18 @@ def run(ctx):
         pool = rand_pool(rng)
         ops = rand_ops(rng, pool, rng.randint(3, 12))
         cases.append(dict(pool, ops=ops))
+    # one type object with an allOf parent, shared by two schemas that define the parent differently (each privately): what the child inherits in one schema must not
+    # depend on the other schema having been compiled before
+    for _ in range(40 if quick else 400):
+        pa, pb = rng.sample([('"x"', "1"), ('"y"', '"s"'), ('"w"', "true"), ('"v"', "2.5")], 2)
+        shared = [["@b", '{ // {allOf: "@a"}\n  "z": 1\n}']]
+        schemas = [{"text": "@b", "types": [["@a", "{\n  %s: %s\n}" % pa]]}, {"text": rng.choice(["@b", '{\n  "k": @b\n}']), "types": [["@a", "{\n  %s: %s\n}" % pb]]}]
+        wrap = (lambda d: d) if schemas[1]["text"] == "@b" else (lambda d: '{"k":%s}' % d)
+        docs = ['{%s:%s,"z":1}' % pa, wrap('{%s:%s,"z":1}' % pb), wrap('{%s:%s,"z":1}' % pa), '{"z":1}']
+        first = rng.choice([0, 1])
+        ops = [["check", first]] + [[rng.choice(["validate", "validate", "example", "check"]), rng.choice([0, 1])] for _ in range(rng.randint(2, 6))]
+        ops = [o + [rng.randrange(len(docs))] if o[0] == "validate" else o for o in ops]
+        cases.append({"schemas": schemas, "shared_types": shared, "docs": docs, "enums": ["[1]"], "regexes": ["/a/"], "ops": ops, "cls": "shared-allof-private-parent"})
     import os
     cdir = os.path.join(vc.ROOT, "corpus", "C11")
     if os.path.isdir(cdir):
@@ -90,9 +103,11 @@ def run(ctx):
         for k, op in enumerate(c["ops"]):
             h, f, late = rs[0][k]
             # an error value is compared across objects and runs by code and position (the statement's list); its rendered text only with its own later rendering
-            core = lambda x: x.split("#", 1)[0] if (x.startswith("E") or x.startswith("ok")) and "#" in x else x
+            # since the fixes 14a88ff (required keys in schema order) and d7272bd / 4088268 (no heap address in the 1303 message) the rendered text is compared as well
+            core = lambda x: x
             h_full, h, f = h, core(h), core(f)
-            info = {"pool": {kk: c.get(kk) for kk in ("schemas", "shared_types", "docs", "enums", "regexes")}, "history": c["ops"][:k + 1], "op": op, "in_history": h, "fresh": f, "later": late}
+            info = {"pool": {kk: c.get(kk) for kk in ("schemas", "shared_types", "docs", "enums", "regexes")}, "history": c["ops"][:k + 1], "op": op, "in_history": h, "fresh": f, "later": late,
+                    "cls": c.get("cls")}
             if h != f:
                 if len(ctx.violations) < 40:
                     ctx.report("operation %s after history %s returns %s, on fresh objects %s" % (op, c["ops"][:k], h[:100], f[:100]), "c11h:" + l + str(k), info, case=info)
